@@ -467,7 +467,7 @@ impl<'r> Render<'r> {
                 0 => t_num("1.5"),
                 1 => t_num("-0.25"),
                 2 => t_int(3),
-                _ => t_num("1e3"),
+                _ => t_num("1000.5"),
             },
             Ty::Prim("bytes") => t_str(*self.rng.pick(&["", "a", "\u{0}\u{ff}", "\u{7f}\u{80}"])),
             Ty::Prim("string") => t_str(DOCS[self.rng.below(DOCS.len())]),
